@@ -408,6 +408,36 @@ def h_from_field(sx, cfg):
             sx.check(f"cell{idx}[{k}]", sx.Or(*[sx.eq(f.array[idx + (k,)], arr[tuple(cd) + (k,)]) for cd in cands]))
 
 
+def h_history(sx, cfg):
+    """history: the field is sampled, rotated in place (anisotropic cells), values written in place; sampling at every cell centre
+    of the current mesh (computed from the region corners and n) still returns that cell's stored value, and a line follows"""
+    df = lib.load()
+    n = tuple(cfg["n"])
+    nd = len(n)
+    mesh, pmin, e = sym_mesh(sx, n, flip=False)
+    arr = sx.real_array("v", (*n, 1))
+    f = df.Field(mesh, nvdim=1, value=arr)
+    first = f(tuple(pmin[a] + e[a] / (2 * n[a]) for a in range(nd)))
+    sx.check("sample-before", sx.eq(first[0], arr[(0,) * nd + (0,)]))
+    a, b = cfg.get("plane", (0, 1))
+    dims = mesh.region.dims
+    ret = f.rotate90(dims[a], dims[b], k=cfg.get("k", 1), inplace=True)
+    sx.check("inplace-returns-self", ret is f)
+    nn = tuple(int(x) for x in f.mesh.n)
+    lo, hi = list(f.mesh.region.pmin), list(f.mesh.region.pmax)
+    for J in np.ndindex(*nn):
+        pt = [lo[q] + (J[q] + 0.5) * (hi[q] - lo[q]) / nn[q] for q in range(nd)]
+        got = f(tuple(pt))
+        sx.check(f"sample-after-inplace-rotation{J}", sx.eq(got[0], f.array[J + (0,)]))
+    w = sx.real("w")
+    f.array[(0,) * nd + (0,)] = w
+    pt0 = [lo[q] + 0.5 * (hi[q] - lo[q]) / nn[q] for q in range(nd)]
+    sx.check("sample-after-in-place-write", sx.eq(f(tuple(pt0))[0], w))
+    ptl = [hi[q] - 0.5 * (hi[q] - lo[q]) / nn[q] for q in range(nd)]
+    line = f.line(p1=tuple(pt0), p2=tuple(ptl), n=2)
+    sx.check("line-after-history", sx.And(sx.eq(line.data.iloc[0]["v"], w), sx.eq(line.data.iloc[1]["v"], f.array[tuple(k - 1 for k in nn) + (0,)])))
+
+
 def h_reject(sx, cfg):
     """wrong shape / component count / type: refused, and an existing field is left unchanged"""
     df = lib.load()
@@ -472,7 +502,7 @@ def tasks(tier):
     t = []
     q = tier == "quick"
     # specifications
-    shapes = [((3,), 1), ((2,), 3), ((2, 3), 2), ((3, 1), 1), ((2, 1, 2), 3), ((1, 2, 2), 1)]
+    shapes = [((3,), 1), ((2,), 3), ((2, 3), 2), ((3, 1), 1), ((2, 1, 2), 3), ((1, 2, 2), 1), ((2, 2, 1, 2), 1)]
     if not q:
         shapes += [((4,), 2), ((1,), 1), ((3, 3), 3), ((4, 2), 4), ((2, 2, 2), 2), ((3, 2, 1), 4), ((2, 1, 2, 2), 1), ((1, 2, 1, 2), 3)]
     for i, (n, nv) in enumerate(shapes):
@@ -539,4 +569,6 @@ def tasks(tier):
         t.append(dict(harness="h_from_field", cfg=cfg))
     for n, nv in ([((2, 2), 1), ((2,), 3)] if q else [((2, 2), 1), ((2,), 3), ((2, 1, 2), 2), ((3,), 1)]):
         t.append(dict(harness="h_reject", cfg=dict(n=list(n), nvdim=nv)))
+    for n, plane, k in ([((2, 3), (0, 1), 1), ((3, 1, 2), (2, 0), 3)] if q else [((2, 3), (0, 1), 1), ((3, 1, 2), (2, 0), 3), ((2, 3), (1, 0), -1), ((2, 2, 3), (1, 2), 1)]):
+        t.append(dict(harness="h_history", cfg=dict(n=list(n), plane=list(plane), k=k), limits=dict(max_paths=2000)))
     return t
